@@ -134,7 +134,8 @@ func Alternates() map[string][]cty.Value {
 		"l": {cty.ListVal([]cty.Value{num(2), num(1)}), cty.ListValEmpty(cty.Number), cty.ListVal([]cty.Value{num(0)}),
 			cty.ListVal([]cty.Value{num(1), num(1), num(3)})},
 		"ls": {cty.ListVal([]cty.Value{str("b"), str("a")}), cty.ListValEmpty(cty.String), cty.ListVal([]cty.Value{str("a"), str("a")})},
-		"le": {cty.ListVal([]cty.Value{str("a")}), cty.ListVal([]cty.Value{str("1"), str("true")})},
+		"le": {cty.ListVal([]cty.Value{cty.ObjectVal(map[string]cty.Value{"a": num(2)})}),
+			cty.ListVal([]cty.Value{cty.ObjectVal(map[string]cty.Value{"a": num(1)}), cty.ObjectVal(map[string]cty.Value{"a": num(0)})})},
 		"t":  {cty.TupleVal([]cty.Value{num(2), str("b")}), cty.TupleVal([]cty.Value{num(0), str("")})},
 		"o": {cty.ObjectVal(map[string]cty.Value{"a": num(2), "b": str("y")}),
 			cty.ObjectVal(map[string]cty.Value{"a": num(0), "b": str("")})},
